@@ -1121,3 +1121,30 @@ func c12ExactLimitInflates(c *Ctx) {
 	}
 	c.Cond(bad == "" && n > 0, ob, key, c.FnPos(ra), fmt.Sprintf("%d len+1 test(s): refusal only after a further byte was read", n), bad)
 }
+
+// ---------------------------------------------------------------- C03.O11
+
+// c03UDPSessionTable: the UDP listener's session table is a plain map shared
+// by the reader (lookup, insert), by every session's close (delete) and by the
+// listener's close (range, reset).  Go maps crash the process on a concurrent
+// write, so every access is under the table's own lock.
+func c03UDPSessionTable(c *Ctx) {
+	const ob = "C03.O11"
+	L := c.Locks()
+	table := []eng.Guard{{Field: "nbio.udpConn.conns", Lock: "nbio.udpConn.mux", Reads: true, Writes: true}}
+	n := 0
+	perFn := map[string]int{}
+	for _, s := range eng.CheckGuarded(L, c.nbioFuncs(), table, nil) {
+		if !s.Held && s.Access.Addr != nil && c.freshUnpublished(s.Fn, s.Access.In, s.Access.Addr.X) {
+			continue
+		}
+		n++
+		perFn[c.P.FuncName(s.Fn)]++
+		key := fmt.Sprintf("%s: %s %s#%d", c.P.FuncName(s.Fn), rw(s.Access.Write), s.Access.Field, perFn[c.P.FuncName(s.Fn)])
+		c.Cond(s.Held, ob, key, c.Pos(s.Access.In), "udpConn.mux held",
+			"the UDP session table is accessed at "+c.Pos(s.Access.In)+" without its lock (udpConn.mux; held: "+L.Held(s.Access.In).String()+"): the reader inserts, every session's close deletes and the listener's close ranges over the same map, and a concurrent map write is a fatal error that takes the process down (closing a UDP listener, or Engine.Stop, while its sessions' read deadlines expire)")
+	}
+	if n < 4 {
+		c.Unres(ob, "accesses of the UDP session table", fmt.Sprintf("found %d, expected >= 4", n))
+	}
+}
